@@ -233,7 +233,10 @@ DropZero ==
 OutSamples == [m \in DOMAIN memo |-> memo[m].s]
 Expected == [ bag    |-> MergeD(case.profs),
               totals |-> Totals(AllSamples(case.profs), NT),
-              hdr    |-> HdrD(Hdrs(case.profs)) ]
+              hdr    |-> HdrD(Hdrs(case.profs)),
+              \* the number of samples the identity rules (SampleKey: mapping sizes by page count, every line attribute,
+              \* label units ...) leave after all-zero ones are gone: the result is neither conflated nor left unmerged
+              nsamples |-> Len(memo) ]
 
 Finish ==
   /\ pc = "done"
